@@ -208,6 +208,11 @@ def e2e_annotations(chk, tier, rnd):
     words = ["a", "b c", "x  y", "tab\there", " lead", "trail ", "q", "*", "**", "x*", "x **", "* x *", "a*b", "a/b", "/ x"]
     texts = [" ".join(t) for n in (1, 2) for t in itertools.product(words, repeat=n)]
     multi = [a + "\n" + b for a in words[:4] for b in words[:4]] + [a + "\r\n  " + b for a in words[:3] for b in words[:3]]
+    # block annotations of several lines whose continuation lines begin with asterisks (a bullet list, a comment-style
+    # margin): the asterisks are text
+    stars = ["*", "**", "* x", "*x", "x*"]
+    multi += [a + nl + ind + b for a in ("Formats:", "a") for b in stars for nl in ("\n", "\r\n") for ind in ("", " ", "\t")]
+    multi += ["Formats:\n * json\n * xml", "a\r\n * b\r\n * c", "l1\n*\n* l3", "* first\n* second"]
     cases, meta, compact = [], {}, {}
     for n, t in enumerate(texts + multi):
         single = "\n" not in t
